@@ -40,13 +40,19 @@ pub fn ksf_faults_fired() -> usize {
 }
 
 /// Tagged, non-identity key-stretching stand-in: output = SHA-512-based
-/// expansion of (tag, input). `Default` is tag 0.
+/// expansion of (tag, input). `Default` is tag 0. Tags with the top bit set
+/// (`SIMKSF_CONSTANT`) are legal but degenerate instances whose output
+/// ignores the input: every separation the protocol promises must then come
+/// from the protocol itself (the OPRF output also enters the HKDF directly).
 #[derive(Clone, Debug, Default, PartialEq, Eq)]
 pub struct SimKsf {
     pub tag: u32,
 }
 
+pub const SIMKSF_CONSTANT: u32 = 0x8000_0000;
+
 pub fn simksf_eval(tag: u32, input: &[u8], out_len: usize) -> Vec<u8> {
+    let input: &[u8] = if tag & SIMKSF_CONSTANT != 0 { &[] } else { input };
     let mut out = Vec::with_capacity(out_len + 64);
     let mut ctr = 0u32;
     while out.len() < out_len {
